@@ -160,12 +160,22 @@ func segmentFMP4ReadHeader(r io.ReadSeeker) (*fmp4.Init, time.Duration, error) {
 
 	// read ftyp and moov
 
+	fileSize, err := r.Seek(0, io.SeekEnd)
+	if err != nil {
+		return nil, 0, err
+	}
+
 	_, err = r.Seek(0, io.SeekStart)
 	if err != nil {
 		return nil, 0, err
 	}
 
-	buf = make([]byte, uint64(ftypSize+moovSize))
+	headerSize := uint64(ftypSize) + uint64(moovSize)
+	if headerSize > uint64(fileSize) {
+		return nil, 0, io.ErrUnexpectedEOF
+	}
+
+	buf = make([]byte, headerSize)
 
 	_, err = io.ReadFull(r, buf)
 	if err != nil {
@@ -183,11 +193,38 @@ func segmentFMP4ReadHeader(r io.ReadSeeker) (*fmp4.Init, time.Duration, error) {
 	return &init, d, nil
 }
 
+// readBoxPayload reads the payload of a box whose 8-byte header has just been read,
+// after checking that the declared size is covered by the file.
+func readBoxPayload(r io.ReadSeeker, size uint32, fileSize int64) ([]byte, error) {
+	pos, err := r.Seek(0, io.SeekCurrent)
+	if err != nil {
+		return nil, err
+	}
+
+	if size < 8 || int64(size-8) > (fileSize-pos) {
+		return nil, io.ErrUnexpectedEOF
+	}
+
+	buf := make([]byte, size-8)
+
+	_, err = io.ReadFull(r, buf)
+	if err != nil {
+		return nil, err
+	}
+
+	return buf, nil
+}
+
 func segmentFMP4ReadDurationFromParts(
 	r io.ReadSeeker,
 	init *fmp4.Init,
 ) (time.Duration, error) {
-	_, err := r.Seek(0, io.SeekStart)
+	fileSize, err := r.Seek(0, io.SeekEnd)
+	if err != nil {
+		return 0, err
+	}
+
+	_, err = r.Seek(0, io.SeekStart)
 	if err != nil {
 		return 0, err
 	}
@@ -334,9 +371,8 @@ outer:
 
 		tfhdSize := uint32(buf[0])<<24 | uint32(buf[1])<<16 | uint32(buf[2])<<8 | uint32(buf[3])
 
-		buf2 := make([]byte, tfhdSize-8)
-
-		_, err = io.ReadFull(r, buf2)
+		var buf2 []byte
+		buf2, err = readBoxPayload(r, tfhdSize, fileSize)
 		if err != nil {
 			return 0, err
 		}
@@ -365,9 +401,7 @@ outer:
 
 		tfdtSize := uint32(buf[0])<<24 | uint32(buf[1])<<16 | uint32(buf[2])<<8 | uint32(buf[3])
 
-		buf2 = make([]byte, tfdtSize-8)
-
-		_, err = io.ReadFull(r, buf2)
+		buf2, err = readBoxPayload(r, tfdtSize, fileSize)
 		if err != nil {
 			return 0, err
 		}
@@ -391,9 +425,7 @@ outer:
 
 		trunSize := uint32(buf[0])<<24 | uint32(buf[1])<<16 | uint32(buf[2])<<8 | uint32(buf[3])
 
-		buf2 = make([]byte, trunSize-8)
-
-		_, err = io.ReadFull(r, buf2)
+		buf2, err = readBoxPayload(r, trunSize, fileSize)
 		if err != nil {
 			return 0, err
 		}
@@ -436,7 +468,12 @@ func segmentFMP4MuxParts(
 	var segmentDuration time.Duration
 	breakAtNextMdat := false
 
-	_, err := amp4.ReadBoxStructure(r, func(h *amp4.ReadHandle) (any, error) {
+	fileSize, err := r.Seek(0, io.SeekEnd)
+	if err != nil {
+		return 0, err
+	}
+
+	_, err = amp4.ReadBoxStructure(r, func(h *amp4.ReadHandle) (any, error) {
 		switch h.BoxInfo.Type.String() {
 		case "moof":
 			moofOffset = h.BoxInfo.Offset
@@ -502,6 +539,10 @@ func segmentFMP4MuxParts(
 					(e.SampleFlags&sampleFlagIsNonSyncSample) != 0,
 					e.SampleSize,
 					func() ([]byte, error) {
+						if sampleOffset > uint64(fileSize) || uint64(sampleSize) > (uint64(fileSize)-sampleOffset) {
+							return nil, io.ErrUnexpectedEOF
+						}
+
 						payload := make([]byte, sampleSize)
 						n, err2 := r.ReadAt(payload, int64(sampleOffset))
 						if err2 != nil {
